@@ -504,3 +504,29 @@ func SaveReplay(prop, name, kind string, c any, note string) error {
 	os.MkdirAll(dir, 0o755)
 	return os.WriteFile(filepath.Join(dir, name+".json"), out, 0o644)
 }
+
+// InFlight records the case that is about to run in a side file next to the shard file. If the check process dies
+// while the case runs (a fatal Go error such as a stack overflow cannot be recovered), the driver finds the file and
+// reports the case as the violation's replay. Landed clears it. Only checks whose property is about the host
+// surviving use this.
+func (r *Rec) InFlight(kind string, c any, msg string) {
+	if r.out == "" {
+		return
+	}
+	raw, err := json.Marshal(c)
+	if err != nil {
+		return
+	}
+	b, err := json.Marshal(ReplayFile{Property: r.sh.Property, Kind: kind, Case: raw, Msg: msg})
+	if err != nil {
+		return
+	}
+	os.WriteFile(r.out+".inflight", b, 0o644)
+}
+
+// Landed marks the in-flight case as finished.
+func (r *Rec) Landed() {
+	if r.out != "" {
+		os.Remove(r.out + ".inflight")
+	}
+}
